@@ -198,11 +198,14 @@ func runCommandReal(c ccase, input string, k int) realOutcome {
 				return procResult{Exit: -1, Err: err}
 			}
 			o.PipeCap = pipeCapacity(rd, c.PipeCap)
-			return spawnOnce(append([]string{bin}, a...), c.env(), nil, func(wait func()) {
+			p := spawnOnce(append([]string{bin}, a...), c.env(), nil, func(wait func()) {
 				go func() { wait(); ka.Close() }()
 				o.Delivered, _ = io.CopyN(io.Discard, rd, int64(k))
 				rd.Close() // the reader goes away
 			})
+			rd.Close() // when the start failed
+			ka.Close()
+			return p
 		})
 		o.What = fmt.Sprintf("%s %s  [reader of the named pipe takes %d bytes and leaves; pipe capacity %d]", c.Cmd, strings.Join(a, " "), k, o.PipeCap)
 	case "pipe_devstdout":
@@ -371,6 +374,10 @@ func judgeCommandReal(c ccase, count bool) (string, error) {
 		if failed {
 			return name, fmt.Errorf("%s: no write can fail (complete output: %d bytes) but the command exited with status %d three times in a row; stderr: %s",
 				o.What, size, o.P.Exit, tail(messagesBytes(o.P.Stderr), 600))
+		}
+		if (c.Mode == "fifo_o" || c.Mode == "pipe_devstdout") && o.Delivered != size {
+			return name, fmt.Errorf("%s: exit status 0, the reader was ready to take the whole output (%d bytes) and received %d bytes",
+				o.What, size, o.Delivered)
 		}
 	default:
 		if failed {
